@@ -10,11 +10,11 @@ RULES = {
          {'big_values': 'quick: 64 KiB values with 3 paths and 2 backgrounds; thorough: all'}),
  'C08': ('every message of the C07 lattice (valid modes/datatypes) produced by the reference encoder, placed flush against a PROT_NONE page and at offsets 0..7 of a 16-byte boundary: CalcVssPathLength, GetVssPath, GetVssData (scalars; variable-length: null-destination length query, then exact-extent destination before a PROT_NONE page); bit-exact comparison, message unchanged',
          {'placements': 9}),
- 'C09': ('every vss_length 12..2044 x prior contents {00,FF,A5,incrementing} x 2 placements (exactly round-up(length,4) bytes before a PROT_NONE page / 64 trailing canary bytes); all 512 length values through the dedicated and generic accessors on 4 backgrounds', {}),
+ 'C09': ('every vss_length 12..2044 x prior contents {00,FF,A5,incrementing} x 2 placements (exactly round-up(length,4) bytes before a PROT_NONE page / 64 trailing canary bytes) x message start at a 16-byte boundary + {0,1,2,3}; all 512 length values through the dedicated and generic accessors on 4 backgrounds, and every ordered pair of length values written one after the other; the real acf-vss-talker main() through the I/O seam in its 4 modes (pattern-initialised and uninitialised locals): every packet sent carries a correctly finalised message', {}),
  'C10': ('90 string lists (all lists of 0..3 strings over lengths {0,1,2,5}; 256 empty; 300 one-byte; one of 65533 bytes; 255/256 mixed) x requested counts {0,n-1,n,n+1,n+5} x {null, exact-extent} destinations; pack into exactly data_length bytes before a PROT_NONE page, count, unpack', {}),
  'C13': ('15 helpers x {all 2^16 values; 32/64-bit: one-hot, one-cold, two-hot, every ordered pair of byte positions x 65536 contents x 3 backgrounds; thorough: all 2^32 values for the 32-bit helpers}; memory image, to-host inverse, involution, and the helper set of the other preprocessor branch compared as functions (mirror image)', {}),
 }
-ASSUME = ['five worlds: gcc -O2, gcc -O0 (the project\'s default CMake build has no optimisation flag), gcc -O3 -DNDEBUG (CMake Release), clang -O2 and clang -O1 with a 32-bit long (LLP64 data model)', 'the reference encoders follow acf-vss.md / IEEE 1722-2016 literally (DESIGN appendix A/B)', 'other compilers, optimisation levels, placements and host byte orders are C14/C15',
+ASSUME = ['eight worlds: an ILP32 one (gcc -m32, freestanding, own minimal C runtime) and gcc -O2, gcc -O0 (the project\'s default CMake build has no optimisation flag), gcc -O3 -DNDEBUG (CMake Release), clang -O2, gcc -O2 without predefined byte-order macros, gcc -O2 -fshort-enums and clang -O1 with a 32-bit long (LLP64 data model)', 'the reference encoders follow acf-vss.md / IEEE 1722-2016 literally (DESIGN appendix A/B)', 'other compilers, optimisation levels, placements and host byte orders are C14/C15',
           'inputs outside the stated lattices are not executed']
 
 
@@ -31,8 +31,61 @@ def build(prop, opt='-O2', fresh=True, defs=(), cc='gcc', tag=''):
               # a toolchain that does not predefine the byte-order macros (old gcc, some embedded compilers): little-endian host
               [cc, '-std=gnu99', opt, '-g', '-I' + os.path.join(core.REPO, 'include'), '-DW_BO=w_bo3', '-U__BYTE_ORDER__', '-U__ORDER_LITTLE_ENDIAN__', '-U__ORDER_BIG_ENDIAN__',
                '-U__ORDER_PDP_ENDIAN__', '-Wno-builtin-macro-redefined', '-c', os.path.join(core.ROOT, 'world', 'wrap_bo.c'), '-o', o3]])
+    # ... and the helpers in a translation unit that included the platform's own byte-order headers first
+    o4 = os.path.join(b, 'world' + opt + tag + ('' if cc == 'gcc' else '-' + cc), 'wrap_bo4.o')
+    core.par([[cc, '-std=gnu99', opt, '-g'] + list(defs) + ['-I' + os.path.join(core.REPO, 'include'), '-I' + os.path.join(core.ROOT, 'world'), '-DW_BO=w_bo4', '-D_GNU_SOURCE', '-include', 'byteswap.h', '-include', 'endian.h',
+               '-include', 'arpa/inet.h', '-include', 'sys/param.h', '-include', 'netinet/in.h', '-c', os.path.join(core.ROOT, 'world', 'wrap_bo.c'), '-o', o4]])
     nobjs = core.build_native(os.path.join(b, 'native'), g, ['common.c', 'explore_ser.c'])
-    return core.link(os.path.join(b, 'explore_ser' + opt + tag + ('' if cc == 'gcc' else cc)), nobjs + wobjs + [o2, o3])
+    return core.link(os.path.join(b, 'explore_ser' + opt + tag + ('' if cc == 'gcc' else cc)), nobjs + wobjs + [o2, o3, o4])
+
+
+def vss_talker_finalisation(res, bdir, npk):
+    """C09 at its call site in the example talker: the real main() of acf-vss-talker run through the I/O seam (E4) in
+    its four modes, with pattern-initialised and with uninitialised locals; every packet it sends must carry a VSS
+    message finalised as the property says (length field, pad field, zero pad bytes, nothing behind them)."""
+    from . import e4
+    n = 0
+    for init in ('pattern', 'none'):
+        exe = e4.build_program(bdir, 'acf-vss-talker', init=init)
+        modes = [('ntscf/udp', '-u 10.0.0.2:17220', 1, 0), ('tscf/udp', '-t -u 10.0.0.2:17220', 1, 1), ('ntscf/raw', 'eth0 aa:bb:cc:dd:ee:ff', 0, 0), ('tscf/raw', '-t eth0 aa:bb:cc:dd:ee:ff', 0, 1)]
+        r = e4.run_batch(exe, [(m[0], m[1], 'sleeps=%d' % npk, []) for m in modes])
+        for label, args, udp, tscf in modes:
+            st, eff, rep = r[label]
+            cls = e4.classify(st, rep)
+            if cls:
+                res.viol[('C09', 'acf-vss-talker: ' + cls)] = {'count': 1, 'case': 'C09:9:0:0:0:0:0:0', 'detail': 'mode %s (%s build): %s' % (label, init, rep[:300] or st), 'tag': 'talker'}
+                continue
+            pkts = [bytes.fromhex(x[4:]) for x in eff.split(';') if x.startswith('PKT ')]
+            if len(pkts) < npk:
+                res.viol[('C09', 'acf-vss-talker: sends fewer packets than its loop ran')] = {'count': 1, 'case': 'C09:9:0:0:0:0:0:0', 'detail': 'mode %s: %d packets' % (label, len(pkts)), 'tag': 'talker'}
+            for p in pkts:
+                n += 1
+                off, hl = (4 if udp else 0), (24 if tscf else 12)
+                acf = p[off + hl:]
+                what = None
+                if len(acf) < 14:
+                    what = 'message shorter than a VSS header'
+                else:
+                    q, pad = e4.getf(acf, 'Vss', 'acf_msg_length'), e4.getf(acf, 'Vss', 'pad')
+                    plen = int.from_bytes(acf[12:14], 'big')
+                    content = 12 + 2 + plen + 4          # header, path length, path, one float
+                    ann = e4.getf(p, 'Tscf', 'stream_data_length', off) if tscf else e4.getf(p, 'Ntscf', 'ntscf_data_length', off)
+                    if q != (content + 3) // 4:
+                        what = 'length field %d quadlets for a %d-byte message' % (q, content)
+                    elif pad != 4 * q - content:
+                        what = 'pad field %d, %d bytes were added' % (pad, 4 * q - content)
+                    elif len(acf) != 4 * q:
+                        what = '%d bytes follow the control header, the message announces %d' % (len(acf), 4 * q)
+                    elif any(acf[content:]):
+                        what = 'pad bytes not zero: %s' % acf[content:].hex()
+                    elif ann != len(acf):
+                        what = 'control header announces %d bytes, %d follow' % (ann, len(acf))
+                if what:
+                    e = res.viol.setdefault(('C09', 'acf-vss-talker: message on the wire not finalised: ' + what.split(':')[0].split(' for ')[0]), {'count': 0, 'case': 'C09:9:0:0:0:0:0:0', 'detail': 'mode %s (%s build): %s; packet %s' % (label, init, what, p.hex()), 'tag': 'talker'})
+                    e['count'] += 1
+    res.counters['cases'] = res.counters.get('cases', 0) + n
+    res.counters['transitions'] = res.counters.get('transitions', 0) + n
+    return n
 
 
 def run(prop, tier):
@@ -51,11 +104,34 @@ def run(prop, tier):
         res = core.run_slices(exe87, ['--suite', prop, '--tier', tier], timeout=600, result=res, tag='-O0 -mfpmath=387')
     exec_ = build(prop, '-O2', fresh=False, cc='clang')
     res = core.run_slices(exec_, ['--suite', prop, '--tier', tier], timeout=1500 if tier == 'thorough' else 600, result=res, tag='clang -O2')
+    NOMACRO = ('-U__BYTE_ORDER__', '-U__ORDER_LITTLE_ENDIAN__', '-U__ORDER_BIG_ENDIAN__', '-U__ORDER_PDP_ENDIAN__', '-Wno-builtin-macro-redefined')
+    exem = build(prop, '-O2', fresh=False, defs=NOMACRO, tag='-nomacro')
+    res = core.run_slices(exem, ['--suite', prop, '--tier', tier], timeout=1500 if tier == 'thorough' else 600, result=res, tag='gcc -O2, byte-order macros undefined')
+    exee = build(prop, '-O2', fresh=False, defs=('-fshort-enums',), tag='-shortenums')
+    res = core.run_slices(exee, ['--suite', prop, '--tier', tier], timeout=1500 if tier == 'thorough' else 600, result=res, tag='gcc -O2 -fshort-enums')
     # a host whose long is 32 bits wide (LLP64 data model)
     from . import llp64
     bdir = os.path.join(core.ROOT, 'build', prop)
     exel = llp64.build(bdir, os.path.join(bdir, 'gen'), core.build_native(os.path.join(bdir, 'native'), os.path.join(bdir, 'gen'), ['common.c', 'explore_ser.c']), 'explore_ser')
     res = core.run_slices(exel, ['--suite', prop, '--tier', tier if prop in ('C06', 'C09', 'C10') else 'quick' if tier == 'thorough' else 'lite'], timeout=1500 if tier == 'thorough' else 600, result=res, tag='llp64 (32-bit long)')
+    if prop == 'C09':
+        # the message need not start at a multiple of four (it follows a 14-byte Ethernet header in a frame buffer)
+        for off in (1, 2, 3):
+            res = core.run_slices(exe, ['--suite', prop, '--tier', tier, '--off', str(off)], timeout=600, result=res, tag='message at a 16-byte boundary + %d' % off)
+        vss_talker_finalisation(res, os.path.join(core.ROOT, 'build', prop), 8 if tier == 'quick' else 300)
+    # an ILP32 host: pointers, size_t and long 32 bits wide, 64-bit integers aligned to four bytes, x87 arithmetic
+    from . import ilp32
+    exei = ilp32.build(bdir, os.path.join(bdir, 'gen'), ['common.c', 'explore_ser.c'], 'explore_ser', world_srcs=('wrap_generic.c', 'wrap_ser.c', 'wrap_bo.c'), with_bo=True)
+    res = core.run_slices(exei, ['--suite', prop, '--tier', 'quick' if prop == 'C13' else tier], timeout=1500 if tier == 'thorough' else 600, result=res, tag='ilp32 (gcc -m32, freestanding)')
+    if prop == 'C13':
+        # the helpers on a host that really stores the most significant byte first (the emulated big-endian world of C14):
+        # a swap written in terms of the object's bytes is only a swap on one of the two kinds of host
+        from . import c14
+        objs = c14.be_objects(os.path.join(bdir, 'world-be-O1'), os.path.join(bdir, 'gen'), '-O1')
+        exeb = core.link(os.path.join(bdir, 'explore_ser-be'), core.build_native(os.path.join(bdir, 'native'), os.path.join(bdir, 'gen'), ['common.c', 'explore_ser.c']) + objs, cc='clang')
+        if subprocess.run([exeb, '--worldinfo'], stdout=subprocess.PIPE, text=True).stdout.strip().split()[-1] != 'big=1':
+            core.die_infra('the emulated big-endian world does not report big-endian storage')
+        res = core.run_slices(exeb, ['--suite', prop, '--tier', 'quick'], timeout=900, result=res, tag='emulated big-endian host')
     rule, bounds = RULES[prop]
     core.finish(prop, tier, t0, res, rule=rule, bounds=bounds, assumptions=ASSUME,
                 recipe={'engine': 'ser', 'suite': prop, 'tier': tier}, replayer=make_replayer(exe, tier),
